@@ -623,7 +623,8 @@ pub fn run(ctx: &mut Ctx) {
     ctx.run_prop_threads("datagrams", n, threads, move || case_strategy(sp.clone(), tier.pick(24, 60)), prop);
     // source port 0 through a raw socket, with controls from ordinary ports
     let mut raw = Vec::new();
-    for spec in specs(tier).into_iter().filter(|s| !s.stale_ids && s.access == 0) {
+    // the scrape that observes the state needs a limit of at least one torrent
+    for spec in specs(tier).into_iter().filter(|s| !s.stale_ids && s.access == 0 && s.max_scrape >= 1) {
         for announce in [false, true] {
             for src_port in [0u16, 0, 0, 40_001, 40_002] {
                 raw.push(RawCase { tracker: spec, src_port, announce });
